@@ -24,7 +24,7 @@ ASSUMPTIONS = [
 ]
 TIERS = {
     "quick": {"shards": 16, "cases": 6000, "timeout": 300},
-    "thorough": {"shards": 16, "cases": 200000, "timeout": 3000},
+    "thorough": {"shards": 16, "cases": 1000000, "timeout": 3000},
 }
 FLOORS = {
     "quick": {"counts": {"differential_pairs": 5500, "lines_compared": 8000, "hostile_linebreak": 1000,
